@@ -46,6 +46,10 @@ pub fn cases(thorough: bool, seed: u64) -> Vec<Params> {
         for s in 0..(if thorough { 6 } else { 2 }) {
             out.push(Params { n: k, t: 0, ids: IdSet::Default, subset: vec![], variant: V_DENSE, aux: s, seed: seed + s });
         }
+        // structured bit patterns for blinders and challenges (aux >= 100 selects the rotation)
+        for off in 0..(if thorough || k <= 3 { 18u64 } else { 6 }) {
+            out.push(Params { n: k, t: 0, ids: IdSet::Default, subset: vec![], variant: V_DENSE, aux: 100 + off, seed });
+        }
     }
     out
 }
